@@ -12,6 +12,24 @@ thread_local! {
     pub static WORKER_IDX: std::cell::Cell<usize> = const { std::cell::Cell::new(usize::MAX) };
 }
 
+/// Milliseconds (since the first use) at which each worker last started a rank or called
+/// `heartbeat`; the watchdog measures from here.
+pub static LAST_BEAT: [AtomicU64; 256] = [const { AtomicU64::new(0) }; 256];
+
+fn now_ms() -> u64 {
+    static T0: std::sync::OnceLock<std::time::Instant> = std::sync::OnceLock::new();
+    T0.get_or_init(std::time::Instant::now).elapsed().as_millis() as u64
+}
+
+/// A rank that consists of many independent cases of the code under test (each of them bounded)
+/// calls this between cases: the watchdog limit applies to one case, not to the whole rank.
+pub fn heartbeat() {
+    let w = WORKER_IDX.with(|c| c.get());
+    if w < LAST_BEAT.len() {
+        LAST_BEAT[w].store(now_ms(), Ordering::Relaxed);
+    }
+}
+
 /// The rank the calling thread is working on, if it is a worker (used by the SIGABRT handler).
 pub fn current_rank_of_this_thread() -> Option<u64> {
     let w = WORKER_IDX.with(|c| c.get());
@@ -93,6 +111,9 @@ where
                             let end = (start + chunk).min(hi);
                             for r in start..end {
                                 slot.1.store(t0.elapsed().as_millis() as u64, Ordering::Relaxed);
+                                if w < LAST_BEAT.len() {
+                                    LAST_BEAT[w].store(now_ms(), Ordering::Relaxed);
+                                }
                                 slot.0.store(r + 1, Ordering::Release);
                                 if w < CUR_RANK.len() {
                                     CUR_RANK[w].store(r + 1, Ordering::Relaxed);
@@ -117,10 +138,13 @@ where
             while !done.load(Ordering::Acquire) {
                 std::thread::sleep(std::time::Duration::from_millis(250));
                 let now = t0.elapsed().as_millis() as u64;
-                for slot in slots.iter() {
+                let _ = now;
+                for (w, slot) in slots.iter().enumerate() {
                     let r1 = slot.0.load(Ordering::Acquire);
                     let st = slot.1.load(Ordering::Relaxed);
-                    if r1 != 0 && now.saturating_sub(st) > limit_ms {
+                    // time since the rank started or since its last heartbeat, whichever is later
+                    let idle = if w < LAST_BEAT.len() { now_ms().saturating_sub(LAST_BEAT[w].load(Ordering::Relaxed)) } else { t0.elapsed().as_millis() as u64 - st };
+                    if r1 != 0 && idle > limit_ms {
                         // confirm it is still the same rank (not a torn read across two ranks)
                         if slot.0.load(Ordering::Acquire) == r1 && slot.1.load(Ordering::Relaxed) == st {
                             crate::report::stalled(r1 - 1, limit_ms / 1000);
